@@ -217,7 +217,7 @@ SPEC = {
     "regen": do_regen,
     "lean_modules": ["Dawgs.Props.C03"],
     "theorems_by_module": THEOREMS,
-    "gate_modules": ["Dawgs.Model.Sql", "Dawgs.Model.C01S2", "Dawgs.Model.C03", "Dawgs.Model.C03Bind", "Dawgs.Model.SqlSchema", "Dawgs.Proofs.C03", "Dawgs.Proofs.C03Frag", "Dawgs.Props.C03"],
+    "gate_modules": ["Dawgs.Model.Sql", "Dawgs.Model.C01", "Dawgs.Model.C01S2", "Dawgs.Model.C03", "Dawgs.Model.C03Bind", "Dawgs.Model.SqlSchema", "Dawgs.Proofs.C03", "Dawgs.Proofs.C03Frag", "Dawgs.Props.C03"],
     "suites": [{"name": "c03", "model_suite": "c03", "model_input": model_input, "impl_view": impl_view, "model_view": model_view,
                 "judge": judge, "keep_prefix": 1, "thorough_seeds": 1}],
     "nontrivial": nontrivial,
@@ -243,7 +243,7 @@ SPEC = {
                      "harness/sexp.go reflection rendering of the pgsql AST and Driver/SqlSexp.lean reader (unknown node -> unmodelled, never guessed)",
                      "SQL passed as TEXT to the *_harness functions (shortest paths) is not bound: those statements are counted as unmodelled dynamic-sql"],
     "assumptions": ["per-output validation: the universally quantified claim is wellScoped_sound (binder ⇒ resolution succeeds); that every emitted statement passes the binder is "
-                    "checked case by case, and PROVED only for the model translator of C01 (c03_partial : C03_for C01.tr, c03_partial_S2 : C03_for C01.tr2 — every stage-S1 and every stage-S2a (one directed hop) "
+                    "checked case by case, and PROVED only for the model translator of C01 (c03_partial : C03_for C01.tr, c03_partial_S2 : forall flipOf, C03_for (C01.tr2F flipOf) — every stage-S1 and every stage-S2b (one directed hop with WHERE, either join order) "
                     "statement resolves under the schema with no parameters, tied to the real translator by C01's suite c01tie); C03_full (a total translator) stays a visible undischarged Prop"],
 }
 
@@ -256,7 +256,8 @@ MANIFEST = {
             "unchanged tree, see known_findings.json), unknown AST nodes and dynamic SQL are counted as unmodelled. "
             "params_closed / missing_param_rejected: acceptance under the parameter names ps excludes the missing-parameter error, and a statement using a parameter outside ps is rejected. "
             "c03_partial : C03_for C01.tr — PROVED for the model translator of C01 (stage S1, all queries, all kind maps): its statements pass the binder, hence resolve, under the schema with "
-            "no parameters. c03_partial_S2 : C03_for C01.tr2 and tr_wellScoped — the same for tr2 = S1 plus stage S2a (MATCH (a)-[r]->(b) RETURN items over a, r, b; both join orders, "
-            "every combination of kind constraints): the statement passes the binder (wellScoped = true) under the schema with the empty parameter list. C03_full (the same for a total translator) is a visible, undischarged Prop.",
+            "no parameters. c03_partial_S2 : forall flipOf, C03_for (C01.tr2F flipOf) and tr_wellScoped — the same for S1 plus stage S2b (MATCH (a)-[r]->(b) [WHERE single-variable conjuncts] RETURN items "
+            "over a, r, b; both join orders, every combination of kind constraints, every list of conjuncts: Proofs/C03Frag.lean bPredAt — a lowered S1 predicate binds wherever its alias "
+            "shows id / properties / kind column): the statement passes the binder (wellScoped = true) under the schema with the empty parameter list. C03_full (the same for a total translator) is a visible, undischarged Prop.",
     "note": "Not a proof about the Go translator: per-output validation. PostgreSQL's scoping rules are a trusted Lean transcription of the documentation (no server in the sandbox).",
 }
